@@ -2893,3 +2893,64 @@ Proof.
   - pose proof (Inv_unique _ HI') as ND. unfold all_ids in ND.
     assert (e2 = e') by (eapply (nodup_ids_inj (all_nodes (core x'))); eauto using all_ents_sub; congruence). subst. lia.
 Qed.
+
+(* ================================================================ 20. a failed liveness check divides the credit by three *)
+
+Theorem failed_check_divides_credit t id nr pick t' e aid :
+  Inv t -> step t (RevalResp id false nr pick) = Some t' ->
+  find (fun a : N * bool => fst a =? id) (active (gl t)) = Some (aid, true) ->
+  In e (all_ents t) -> eid e = id ->
+  (checks e / 3 = 0 -> ~ In id (entry_ids t')) /\
+  (checks e / 3 <> 0 -> exists e', In e' (all_ents t') /\ eid e' = id /\ checks e' = checks e / 3 /\ nd e' = nd e /\ rl e' = Some Fast).
+Proof.
+  intros HI Hs Hf He Hid.
+  destruct (step_inv t (RevalResp id false nr pick) HI I) as (t'' & E & HI'). rewrite Hs in E. inversion E; subst t''. clear E.
+  simpl in Hs. unfold handle_response in Hs. rewrite Hf in Hs. simpl negb in Hs. cbv iota in Hs.
+  apply with_bucket_shape in Hs. destruct Hs as (b & g' & b' & Hn & RS & Et'). simpl in Hn, RS.
+  apply all_ents_in in He. destruct He as (j & bj & Hj & Hej).
+  destruct (Inv_place t j bj e HI Hj) as [P1 _]; [rewrite in_app_iff; auto|]. rewrite Hid in P1. rewrite <- P1 in Hj.
+  rewrite Hn in Hj. inversion Hj; subst bj. clear Hj.
+  assert (HBL : BLocal (self t) (bucket_of (self t) id) b) by (destruct HI as (_ & _ & HB & _); apply HB; auto).
+  destruct HBL as (_ & HU & _ & (HF1 & _) & _). pose proof (BUniq_ents b HU) as ND.
+  assert (Hlen : (bucket_of (self t) id < length (bks t))%nat) by (apply nth_error_Some; congruence).
+  unfold handle_response_b in RS.
+  destruct (has_find (ents b) id (ex_intro _ e (conj Hej Hid))) as (i & n & F & Hni & Hnid). rewrite F in RS.
+  assert (n = e) by (eapply (nodup_ids_inj (ents b)); eauto; [eapply nth_error_In; eauto|congruence]). subst n.
+  destruct (rl e) eqn:Rl; [|exfalso; apply (HF1 e Hej); auto]. simpl negb in RS. cbv iota in RS.
+  set (n1 := set_checks e (checks e / 3)) in *. change (checks n1) with (checks e / 3) in RS.
+  assert (ME : map eid (set_at i n1 (ents b)) = map eid (ents b)) by (eapply map_eid_set_at; eauto).
+  destruct (checks e / 3 =? 0) eqn:CZ.
+  - apply N.eqb_eq in CZ. split; [intros _|intros X; contradiction].
+    assert (HU1 : BUniq (set_ents b (set_at i n1 (ents b)))).
+    { unfold BUniq, bnodes in *. sb. rewrite map_app in *. rewrite ME. auto. }
+    assert (Hh1 : has (ents (set_ents b (set_at i n1 (ents b)))) id).
+    { sb. apply has_in_ids. rewrite ME. apply has_in_ids. exists e; auto. }
+    pose proof (delete_removes _ _ _ _ _ _ HU1 Hh1 RS) as NR.
+    intros Hin. apply entry_ids_iff in Hin. destruct Hin as (j2 & bj2 & x & Hj2 & Hx & Hxid).
+    destruct (Inv_place t' j2 bj2 x HI' Hj2) as [P2 _]; [rewrite in_app_iff; auto|].
+    rewrite Et' in Hj2, P2. simpl in Hj2, P2. rewrite Hxid in P2.
+    apply nth_upd_cases in Hj2; auto. destruct Hj2 as [[_ ->]|[Ne _]]; [|apply Ne; auto].
+    apply NR. exists x. auto.
+  - apply N.eqb_neq in CZ. split; [intros X; contradiction|intros _].
+    destruct (move_to_list _ Fast n1) as [[g3 n3]|] eqn:MV; [|discriminate]. apply move_to_list_shape in MV. subst n3.
+    inversion RS as [[RS1 RS2]].
+    exists (set_rl n1 (Some Fast)). split; [|simpl; auto].
+    apply all_ents_in. rewrite Et'. simpl. exists (bucket_of (self t) id), b'. split; [apply nth_error_upd_same; auto|].
+    rewrite <- RS2. sb. eapply nth_error_In. eapply nth_error_set_at_same; eauto.
+Qed.
+
+Theorem pol_failed_holds t o t' : Inv t -> step t o = Some t' -> pol_failed_credit_b t o t' = true /\ pol_failed_gone_b t o t' = true.
+Proof.
+  intros HI Hs. unfold pol_failed_credit_b, pol_failed_gone_b, failed_target.
+  destruct o; auto. destruct responded; auto.
+  destruct (find (fun a : N * bool => fst a =? id) (active (gl t))) as [[aid att]|] eqn:Hf; auto. destruct att; auto.
+  destruct (find_entry t id) as [e|] eqn:FE; auto. unfold find_entry in FE. apply find_some in FE. destruct FE as [He Hid]. apply N.eqb_eq in Hid.
+  destruct (failed_check_divides_credit t id newrec pick t' e aid HI Hs Hf He Hid) as [Z NZ].
+  destruct (step_inv t (RevalResp id false newrec pick) HI I) as (t'' & E & HI'). rewrite Hs in E. inversion E; subst t''. clear E.
+  destruct (checks e / 3 =? 0) eqn:CZ.
+  - apply N.eqb_eq in CZ. split; auto. apply negb_true_iff. destruct (mem_N (eid e) (entry_ids t')) eqn:M; auto.
+    apply mem_N_in in M. rewrite Hid in M. exfalso. apply (Z CZ); auto.
+  - apply N.eqb_neq in CZ. split; auto. destruct (NZ CZ) as (e' & He' & Hid' & Hc & _).
+    apply all_ents_in in He'. destruct He' as (j & b & Hj & Hb).
+    rewrite Hid, <- Hid'. rewrite (find_entry_unique t' j b e' HI' Hj Hb). apply N.eqb_eq. exact Hc.
+Qed.
